@@ -630,7 +630,7 @@ fn note(seen: &mut Seen, op: &Op, code: u64, pre: &[Obs], post: &[Obs]) {
 
 async fn single_histories(args: &Args, rng: &mut Rng, sink: &mut Sink) {
     let t_start: u64 = 1_700_000_000 * NS;
-    let n_hist = if args.thorough { 1500 } else { 120 };
+    let n_hist = if args.thorough { 700 } else { 120 };
     let max_len = if args.thorough { 30 } else { 18 };
     // a fresh server per history: the whole-database scan must not see leftovers of other histories
     let per_server = 1;
@@ -708,7 +708,7 @@ async fn repl_incremental(from: &QueryServer, to: &QueryServer, t: Duration) -> 
 }
 
 async fn pair_histories(args: &Args, rng: &mut Rng, sink: &mut Sink) {
-    let n_hist = if args.thorough { 300 } else { 24 };
+    let n_hist = if args.thorough { 140 } else { 24 };
     let max_len = if args.thorough { 26 } else { 18 };
     for hid in 0..n_hist {
         let (sa, sb) = setup_pair_test(TestConfiguration::default()).await;
